@@ -8,6 +8,27 @@ GUARDED = ["g_write", "g_read", "g_write_obj", "g_read_obj", "g_read_from", "g_w
 UNGUARDED = ["g_store", "g_load", "s_get_atomic_ref", "s_aligned_as_ref", "s_copy_to_volatile_slice", "s_arr_copy_to_volatile_slice"]
 
 
+HIGH = 1 << 32
+
+
+def rebase(events):
+    """Histories on regions at or above 4 GiB are shifted down by 4 GiB before TLC sees them (its integers are 32-bit; the
+    specification is invariant under a shift by a multiple of the page size).  Device requests that the code computed too
+    low come out negative and fail the coverage rule."""
+    k = 0
+    for e in events:
+        if e["op"] == "init":
+            k = HIGH if e["a"]["base"] >= HIGH else 0
+            e["a"]["base"] -= k
+        elif k and isinstance(e.get("a"), dict) and "addr" in e["a"]:
+            e["a"]["addr"] -= k
+        if k:
+            for lst in (e.get("dev") or [], (e.get("r") or {}).get("during") or []):
+                for d in lst:
+                    if "index" in d:
+                        d["index"] -= k
+
+
 def rnd_op(rnd, base, size, zero):
     def off(n=0):
         # offsets around page boundaries and the ends of the region
@@ -83,6 +104,8 @@ def xgrant(ctx, zero=False):
     for h in range(nhist):
         kind = ["ondemand", "ondemand", "ondemand", "advance", "unix", "foreign"][h % 6]
         base = 2 * P if kind != "foreign" else 0
+        if kind in ("ondemand", "advance") and h % 12 >= 6:
+            base += HIGH          # grant references of guest pages at and above 4 GiB
         size = 4 * P
         prog.append({"op": "init", "a": {"kind": kind, "pages": 8, "base": base, "size": size}})
         for _ in range(nops):
@@ -90,6 +113,7 @@ def xgrant(ctx, zero=False):
             prog.append({"op": op, "a": a})
         prog.append({"op": "drop", "a": {}})
     events = run_harness("xgrant", prog, os.path.join(WORK, "xgrant_%s.ev.ndjson" % ctx.pid), pkg="vmh-xen", timeout=1800, ctx=ctx)
+    rebase(events)
     mism = validate_trace(ctx, os.path.join(SPEC, "Trace_XenGrant.tla"), os.path.join(SPEC, "Trace_XenGrant.%s.cfg" % ctx.pid),
                           "tr_xengrant_" + ctx.pid, events, encode=False, timeout=1800)
     for m in mism:
@@ -124,6 +148,10 @@ def xctor(ctx):
     sizes = [0, 1, 4095, 4096, 4097, 8192]
     flens = [0, 4096, 8192, 8193]
     foffs = [0, 1, 4096, 8192, U64 - 4096, U64 - 1, (1 << 63), (1 << 63) - 4096]
+    if ctx.tier == "thorough":
+        sizes += [2, 4094, 8191, 8193, 12288, 65536]
+        flens += [1, 4095, 4097, 12288, 65536]
+        foffs += [2, 4095, 4097, 12288, U64 - 4097, U64 - 8192, (1 << 63) + 4096]
     # standard build: the full product for builder rows, the convenience constructors on a subset
     prog = []
     for kind in ("anon", "file", "raw"):
@@ -149,8 +177,10 @@ def xctor(ctx):
     for size in (1, 4095, 4096, 4097, 8192):
         for gbase in (0, 4096, 1 << 63, U64 - size - 4096, U64 - size - 1, U64 - size, U64 - size + 1, U64 - 2, U64 - 1):
             if 0 <= gbase < U64:
-                wraps.append({"op": "wrap", "a": {"size": size, "gbase": gbase}})
+                for api in ("new", "from_range_file", "from_range_anon"):
+                    wraps.append({"op": "wrap", "a": {"size": size, "gbase": gbase, "api": api}})
     prog += wraps
+    prog.append({"op": "race", "a": {"threads": 4, "rounds": 20000 if ctx.tier == "quick" else 200000}})
     ev_unix = run_harness("ctor", prog, os.path.join(WORK, "ctor.ev.ndjson"), ctx=ctx)
     # Xen build: all 32 flag words x file / offset / size / device failures
     prog = []
@@ -166,6 +196,12 @@ def xctor(ctx):
                                 prog.append({"op": "from_range", "a": {"mflags": mflags, "file": file, "size": size, "flen": flen, "foff": foff,
                                                                        "fixed": fixed, "fail": fail, "base": 0, "defaults": (mflags + size) % 2 == 0,
                                                                        "badflags": False}})
+    # the requested protection is reported back and applied, whatever it is (0 = PROT_NONE, 1 = read-only, 3)
+    for mflags in (0, 1, 2, 10):
+        for prot in (0, 1, 3):
+            for file in ((True, False) if mflags == 0 else (True,)):
+                prog.append({"op": "from_range", "a": {"mflags": mflags, "file": file, "size": 4096, "flen": 8192, "foff": 0, "fixed": False, "fail": "",
+                                                       "base": 0, "defaults": False, "badflags": False, "prot": prot}})
     prog += wraps
     ev_xen = run_harness("xctor", prog, os.path.join(WORK, "xctor.ev.ndjson"), pkg="vmh-xen", ctx=ctx)
     events = ev_unix + ev_xen
